@@ -11,11 +11,11 @@ Other(a) == CHOOSE b \in Callers : b # a
 NextR ==
   \E who \in Callers, id \in JobIds \cup {BadId} : \E as \in {who, Other(who)} :
      \/ /\ (who \in Contracts => as = who)
-        /\ \E c \in Chains, t \in Targets, p \in Payloads, m \in BOOLEAN, v \in BOOLEAN :
-              Create(who, as, IF who \in Accounts THEN "tx" ELSE "wasm", id, c, t, p, m, v)
-     \/ \E via \in Vias(who), pg \in 0..2 :
+        /\ \E c \in Chains, t \in Targets, p \in Payloads, sp \in Spellings, m \in BOOLEAN, v \in BOOLEAN :
+              Create(who, as, IF who \in Accounts THEN "tx" ELSE "wasm", id, c, t, p, sp, m, v)
+     \/ \E via \in Vias(who), pg \in 0..2 : \E sp \in ExecSp(via, pg) :
            /\ (via # "tx" => pg # 2)
            /\ (via = "legacy" => as = who)
-           /\ Execute(who, as, via, id, pg)
+           /\ Execute(who, as, via, id, pg, sp)
 MCView == svars
 =============================================================================
